@@ -331,3 +331,47 @@ package graph
 //@     invariant forall t in 0..len(s): 63 <= s[t] && s[t] <= 126
 //@     invariant wfSparse(g) && g.NumberOfVertices == n && fresh(g) && fresh(g.Neighbourhoods) && fresh(g.DegreeSequence) && v <= 4096 + pos && pos == pre(pos) + j
 //@     decreases k - j
+
+// ---- the Graph interface: abstract view absN / absAdj (uninterpreted). Every
+// call through the interface is specified against this view; the axioms state
+// that the view is a simple graph. (Assumed for implementations not yet proved
+// against it.)
+//@ opaque absN(g Graph) int
+//@ opaque absAdj(g Graph, i int, j int) bool
+//@ lemma absSimple(g Graph, i int, j int)
+//@   ensures absAdj(g, i, j) == absAdj(g, j, i) && !absAdj(g, i, i) && 0 <= absN(g) && absN(g) <= 16777216
+//@   by axiom
+//@   pattern absAdj(g, i, j)
+
+//@ extern Graph.N(g Graph) (result int)
+//@   ensures result == absN(g) && 0 <= result && result <= 16777216
+//@ extern Graph.IsEdge(g Graph, i int, j int) (result bool)
+//@   requires 0 <= i && i < absN(g) && 0 <= j && j < absN(g)
+//@   ensures result == absAdj(g, i, j)
+//@ extern Graph.Neighbours(g Graph, v int) (result []int)
+//@   requires 0 <= v && v < absN(g)
+//@   ensures fresh(result)
+//@   ensures forall k in 0..len(result): forall l in k+1..len(result): result[k] < result[l]
+//@   ensures forall k in 0..len(result): 0 <= result[k] && result[k] < absN(g) && absAdj(g, v, result[k])
+//@   ensures forall u in 0..absN(g): absAdj(g, v, u) ==> exists k in 0..len(result): result[k] == u
+
+//@ pred properCol(g Graph, c []int) = c != nil && len(c) == absN(g) && (forall i in 0..len(c): c[i] >= 0) && (forall i in 0..len(c): forall j in 0..len(c): absAdj(g, i, j) ==> c[i] != c[j])
+
+//@ func IsProperColouring
+//@   ensures result <==> properCol(g, colouring)
+//@   opt lemmas=absSimple
+//@   loop 1
+//@     invariant 0 <= i && i <= n && n == absN(g) && colouring != nil && len(colouring) == n
+//@     invariant forall a in 0..i: colouring[a] >= 0
+//@     invariant forall a in 0..i: forall b in 0..a: absAdj(g, a, b) ==> colouring[a] != colouring[b]
+//@     decreases n - i
+//@   loop 2
+//@     invariant -1 <= rangeindex && (rangeindex < len(neighbours) || (len(neighbours) == 0 && rangeindex == -1))
+//@     invariant 0 <= i && i < n && n == absN(g) && colouring != nil && len(colouring) == n && colouring[i] >= 0 && fresh(neighbours)
+//@     invariant forall k in 0..len(neighbours): forall l in k+1..len(neighbours): neighbours[k] < neighbours[l]
+//@     invariant forall k in 0..len(neighbours): 0 <= neighbours[k] && neighbours[k] < n && absAdj(g, i, neighbours[k])
+//@     invariant forall u in 0..n: absAdj(g, i, u) ==> exists k in 0..len(neighbours): neighbours[k] == u
+//@     invariant forall a in 0..i: colouring[a] >= 0
+//@     invariant forall a in 0..i: forall b in 0..a: absAdj(g, a, b) ==> colouring[a] != colouring[b]
+//@     invariant forall k in 0..rangeindex+1: neighbours[k] <= i && colouring[neighbours[k]] != colouring[i]
+//@     decreases len(neighbours) - rangeindex
